@@ -149,6 +149,53 @@ def ident_class(F):
     return preds, extra
 
 
+PY_PRED = {"is_alphabetic": lambda c: c.isalpha(), "is_alphanumeric": lambda c: c.isalnum(), "is_numeric": lambda c: c.isnumeric(),
+           "is_ascii_alphabetic": lambda c: c.isascii() and c.isalpha(), "is_ascii_alphanumeric": lambda c: c.isascii() and c.isalnum(),
+           "is_ascii_digit": lambda c: c in "0123456789", "is_ascii_uppercase": lambda c: c.isascii() and c.isupper(),
+           "is_ascii_lowercase": lambda c: c.isascii() and c.islower(), "is_uppercase": lambda c: c.isupper(), "is_lowercase": lambda c: c.islower()}
+
+
+def ident_first_class(F):
+    """(predicates, literal characters) under which Lexer::next_token starts an identifier: the char tests whose true edge
+    leads, through unconditional jumps only, to the call of consume_identifier."""
+    nt = F.one("expressions::lexer::Lexer::next_token")
+    targets = {bi for bi, t in nt.calls() if (nt.callee_q(t) or "").endswith("Lexer::consume_identifier")}
+
+    def leads(tt):
+        cur, steps = tt, 0
+        while cur is not None and steps < 6:
+            if cur in targets:
+                return True
+            t = nt.blocks[cur]["t"]
+            if t["k"] not in ("goto", "assert"):
+                return False
+            nx = nt.succs(cur)
+            if len(nx) != 1:
+                return False
+            cur = nx[0]
+            steps += 1
+        return False
+    preds, lits = set(), set()
+    for bi, blk in enumerate(nt.blocks):
+        t = blk["t"]
+        if t["k"] != "switch" or t["ty"] != "bool":
+            continue
+        true_t = t["otherwise"]
+        if not leads(true_t):
+            continue
+        tr = nt.trace(t["o"])
+        if tr["kind"] == "call":
+            q = nt.callee_q(tr["t"]) or ""
+            if "char::methods" in q:
+                preds.add(q.rsplit("::", 1)[-1])
+        elif tr["kind"] == "rv" and tr["rv"]["k"] == "bin" and tr["rv"]["op"] == "Eq":
+            for o in (tr["rv"]["a"], tr["rv"]["b"]):
+                k = o.get("k")
+                if k and k.get("ty") == "char":
+                    lits.add(_char_of(k))
+    return preds, lits
+
+
 def _char_of(k):
     d = str(k.get("v", k.get("d")))
     if len(d) >= 3 and d[0] == "'" and d[-1] == "'":
@@ -166,6 +213,12 @@ def table_data(ck, F, lookup, printer, T, tier):
     ck.ob(R, "lexer|identifier-class", preds == {"is_alphanumeric"} and extra >= {"_", "."},
           "identifier class read from consume_identifier is %s + %s" % (sorted(preds), sorted(extra)))
     ck.assume("Python str.isalnum / str.upper stand in for char::is_alphanumeric / str::to_uppercase on the name tables")
+    fpreds, flits = ident_first_class(F)
+    ck.ob(R, "lexer|identifier-start-class", bool(fpreds) and all(p in PY_PRED for p in fpreds),
+          "the tests under which next_token starts an identifier were not found or use an unknown predicate: %s + %s" % (sorted(fpreds), sorted(flits)))
+
+    def starts_identifier(c):
+        return any(PY_PRED[p](c) for p in fpreds if p in PY_PRED) or c in flits
     errs_adt = F.adt("language::Errors")
     err_fields = [f["name"] for f in errs_adt["variants"][0]["fields"]]
     # order in which consume_error tests the names
@@ -186,7 +239,7 @@ def table_data(ck, F, lookup, printer, T, tier):
             ok_up = n == n.upper()
             ck.ob(R, "%s|%s|uppercase-fixed-point" % (lang, field), ok_up,
                   "%s name %r of %s is not its own to_uppercase(): lookup uppercases the key and can never match it" % (lang, n, variant))
-            ok_lex = (n[0].isalpha() or n[0] == "_") and all(c.isalnum() or c in extra for c in n)
+            ok_lex = starts_identifier(n[0]) and all(c.isalnum() or c in extra for c in n)
             ck.ob(R, "%s|%s|lexes-as-identifier" % (lang, field), ok_lex,
                   "%s name %r of %s is not a single identifier token" % (lang, n, variant))
             names.setdefault(n, []).append(variant)
